@@ -73,19 +73,19 @@ theorem setup_reading (c : DevConfig) (d : DevState) (v l : Nat) (hv : v < 65536
     constructor <;> simp
   · simp only [setupScript, finalM, setup_token, h2]
 
-theorem respsM_append (c : DevConfig) (h₁ h₂ : List Stim) : ∀ d,
+theorem c09_respsM_append (c : DevConfig) (h₁ h₂ : List Stim) : ∀ d,
     respsM c d (h₁ ++ h₂) = respsM c d h₁ ++ respsM c (finalM c d h₁) h₂ := by
   induction h₁ with
   | nil => intro d; rfl
   | cons x xs ih => intro d; simp only [List.cons_append, respsM, finalM, ih]
 
-theorem coreRespsM_append (c : DevConfig) (h₁ h₂ : List Stim) : ∀ d,
+theorem c09_coreRespsM_append (c : DevConfig) (h₁ h₂ : List Stim) : ∀ d,
     coreRespsM c d (h₁ ++ h₂) = coreRespsM c d h₁ ++ coreRespsM c (finalM c d h₁) h₂ := by
   induction h₁ with
   | nil => intro d; rfl
   | cons x xs ih => intro d; simp only [List.cons_append, coreRespsM, finalM, ih]
 
-theorem coreRespsM_length (c : DevConfig) (h : List Stim) : ∀ d, (coreRespsM c d h).length = h.length := by
+theorem c09_coreRespsM_length (c : DevConfig) (h : List Stim) : ∀ d, (coreRespsM c d h).length = h.length := by
   induction h with
   | nil => intro d; rfl
   | cons x xs ih => intro d; simp only [coreRespsM, List.length_cons, ih]
@@ -110,7 +110,7 @@ theorem transfer_resps (c : DevConfig) (hx : c.extra = [])
     (h11 : min l dd.length < 2048) (d : DevState) :
     coreRespsM c d (getDescriptorScript d.address v l (Desc.dataStage dd l c.maxPacket).length) =
       [.none, .hs PID_ACK] ++ readResps 0 (Desc.dataStage dd l c.maxPacket) := by
-  rw [← respsM_noforeign c d _ (getDescriptorScript_noforeign _ _ _ _), getDescriptorScript, respsM_append]
+  rw [← respsM_noforeign c d _ (getDescriptorScript_noforeign _ _ _ _), getDescriptorScript, c09_respsM_append]
   obtain ⟨r1, r2, _⟩ := setup_reading c d v l hv hl hl0
   rw [r1, get_descriptor_data_stage_mps c hx hm v l d.address dd hl hlk hpb h11 _ r2]
 
@@ -168,7 +168,7 @@ DATA1 -- or STALL. -/
 theorem first_in_resps (c : DevConfig) (hx : c.extra = []) (v l : Nat) (hv : v < 65536) (hl : l < 65536)
     (hl0 : l ≠ 0) (d : DevState) :
     coreRespsM c d (firstInScript d.address v l) = [.none, .hs PID_ACK, firstAnswer c v l] := by
-  rw [← respsM_noforeign c d _ (firstInScript_noforeign _ _ _), firstInScript, respsM_append]
+  rw [← respsM_noforeign c d _ (firstInScript_noforeign _ _ _), firstInScript, c09_respsM_append]
   obtain ⟨r1, r2, _⟩ := setup_reading c d v l hv hl hl0
   rw [r1]
   simp only [respsM, first_in c hx v l d.address _ r2, List.cons_append, List.nil_append]
@@ -210,5 +210,169 @@ theorem payloads_readResps (ps : List (List Nat)) : ∀ k, payloads (readResps k
 theorem payloads_dataStage (dd : List Nat) (l mps : Nat) (hm : 0 < mps) :
     payloads ([.none, .hs PID_ACK] ++ readResps 0 (Desc.dataStage dd l mps)) = dd.take l := by
   simp only [List.cons_append, List.nil_append, payloads, payloads_readResps, Desc.dataStage_concat dd l mps hm]
+
+/-! ### The read is a legal host behaviour -/
+
+theorem c09_finalM_append (c : DevConfig) (h₁ h₂ : List Stim) : ∀ d,
+    finalM c d (h₁ ++ h₂) = finalM c (finalM c d h₁) h₂ := by
+  induction h₁ with
+  | nil => intro d; rfl
+  | cons x xs ih => intro d; simp only [List.cons_append, finalM, ih]
+
+theorem c09_legalFromM_append (c : DevConfig) (h₁ h₂ : List Stim) : ∀ d,
+    legalFromM c d (h₁ ++ h₂) = (legalFromM c d h₁ && legalFromM c (finalM c d h₁) h₂) := by
+  induction h₁ with
+  | nil => intro d; simp [legalFromM, finalM]
+  | cons x xs ih => intro d; simp only [List.cons_append, legalFromM, finalM, ih, Bool.and_assoc]
+
+/-- The device address is a 7-bit value after every event. -/
+theorem address_lt_stepM (c : DevConfig) (d : DevState) (x : Stim) (h : d.address < 128) :
+    (stepM c d x).1.address < 128 := by
+  show (coreM c d x.ev).1.address < 128
+  cases x.ev with
+  | token pid addr ep =>
+    simp only [coreM, core]
+    split
+    · rw [(onToken_regs c d pid ep).1]; exact h
+    · exact h
+  | data dp p ok => simp only [coreM, core]; rw [(onData_regs c d p ok).1]; exact h
+  | handshake pid =>
+    simp only [coreM]
+    rw [(onHandshakeM_ctl c.maxPacket d pid).1]
+    by_cases hc : (onHandshake d pid).address = d.address
+    · rw [hc]; exact h
+    · rw [(onHandshake_address d pid hc).2.2]; exact Nat.mod_lt _ (by decide)
+  | busReset => simp [coreM, core]
+  | sof f => exact h
+  | malformed b => exact h
+  | quiet => exact h
+  | produce e' b l => exact h
+  | consume e' k => exact h
+  | setSignal e' v => exact h
+
+theorem address_lt_finalM (c : DevConfig) (h : List Stim) : ∀ d, d.address < 128 → (finalM c d h).address < 128 := by
+  induction h with
+  | nil => intro d hd; exact hd
+  | cons x xs ih => intro d hd; exact ih _ (address_lt_stepM c d x hd)
+
+/-- The SETUP transaction of the script is legal from every state (7-bit address). -/
+theorem setupScript_legal (c : DevConfig) (d : DevState) (v l : Nat) (ha : d.address < 128) (hv : v < 65536)
+    (hl : l < 65536) : legalFromM c d (setupScript d.address v l) = true := by
+  have hb : (getDescriptorSetup v l).all (· < 256) = true := by
+    simp only [getDescriptorSetup, List.all_cons, List.all_nil, Bool.and_true, Bool.and_eq_true, decide_eq_true_eq]
+    omega
+  simp only [setupScript, legalFromM, setup_token, Bool.and_true, Bool.and_eq_true]
+  refine ⟨?_, ?_⟩
+  · simp [legalEventM, Resp.isNone, isTokenPid, PID_SETUP, PID_OUT, PID_IN, PID_PING, ha]
+  · simp only [legalEventM, hb]
+    simp [Resp.isNone, isDataPid, PID_DATA0, PID_SETUP, PID_OUT]
+
+/-- One IN + ACK pair of the read is legal while the data stage is not over; after a full packet it is still not
+over. -/
+theorem read_pair_legal (c : DevConfig) (hx : c.extra = []) (v l a : Nat) (d : DevState) (k : Nat) (b : List Nat)
+    (ha : a < 128) (hr : Reading c v l a d k) (hg : d.gDataDone = false)
+    (hp : descriptorPacket c v l ((k * c.maxPacket) % 2048) = some b) :
+    legalEventM c d ⟨.token PID_IN a 0, .none⟩ = true ∧
+    legalEventM c (stepM c d ⟨.token PID_IN a 0, .none⟩).1 ⟨.handshake PID_ACK, .none⟩ = true ∧
+    (c.maxPacket ≤ b.length →
+      (stepM c (stepM c d ⟨.token PID_IN a 0, .none⟩).1 ⟨.handshake PID_ACK, .none⟩).1.gDataDone = false) := by
+  rw [← hr.pos] at hp
+  have h := read_in c hx v l a d k b hr hp
+  have hak := read_ack c (stepM c d ⟨.token PID_IN a 0, .none⟩).1 (by rw [h]; exact hr.hstate) (by rw [h]; exact hr.ty)
+    (by rw [h]) (by rw [h]) (by rw [h])
+  refine ⟨?_, ?_, ?_⟩
+  · simp [legalEventM, Resp.isNone, isTokenPid, PID_SETUP, PID_OUT, PID_IN, PID_PING, ha, hg]
+  · simp only [legalEventM]
+    rw [h]
+    simp [Resp.isNone, isHsPid, PID_ACK]
+  · intro hfull
+    rw [hak, h]
+    show (if b.length < c.maxPacket then true else d.gDataDone) = false
+    rw [if_neg (by omega), hg]
+
+theorem packetAt_full (dd : List Nat) (l mps k : Nat) (h : (k + 1) * mps ≤ min l dd.length) :
+    (Desc.packetAt dd l mps k).length = mps := by
+  simp only [Desc.packetAt, List.length_take, List.length_drop]
+  rw [Nat.succ_mul] at h
+  omega
+
+/-- The data stage of the read from packet `k` on is legal. -/
+theorem read_legal_from (c : DevConfig) (hx : c.extra = []) (mps : Nat) (hmps : c.maxPacket = mps)
+    (hm : mps = 8 ∨ mps = 16 ∨ mps = 32 ∨ mps = 64) (v l a : Nat) (dd : List Nat) (ha : a < 128)
+    (hl : l < 65536)
+    (hlk : lookupDescriptor c.descriptors (v / 256 % 256) (v % 256) = some dd) (hpb : dd.length < 2 ^ c.posBits)
+    (h11 : min l dd.length < 2048) :
+    ∀ (m k : Nat) (d : DevState), k + m = (min l dd.length + mps - 1) / mps → Reading c v l a d k →
+      (m + (zlpTail (min l dd.length) l mps).length ≠ 0 → d.gDataDone = false) →
+      legalFromM c d (readScript a (m + (zlpTail (min l dd.length) l mps).length)) = true := by
+  have hmp : 0 < c.maxPacket := by rw [hmps]; omega
+  intro m
+  induction m with
+  | zero =>
+    intro k d hk hr hg
+    by_cases hz : min l dd.length ≠ 0 ∧ min l dd.length % mps = 0 ∧ min l dd.length < l
+    · have hzt : zlpTail (min l dd.length) l mps = [[]] := by simp only [zlpTail, if_pos hz]
+      have htot : k * mps = min l dd.length := by
+        rcases hm with rfl | rfl | rfl | rfl <;> omega
+      have hmod : (k * c.maxPacket) % 2048 = k * c.maxPacket := by rw [hmps]; omega
+      have hp : descriptorPacket c v l ((k * c.maxPacket) % 2048) = some [] := by
+        rw [hmod, descriptorPacket_at c v l k dd hmp hl hlk hpb (by rw [hmps]; omega), if_neg (by rw [hmps]; omega)]
+      obtain ⟨q1, q2, _⟩ := read_pair_legal c hx v l a d k [] ha hr (hg (by rw [hzt]; simp)) hp
+      simp only [hzt, List.length_cons, List.length_nil, Nat.zero_add, readScript, legalFromM, q1, q2, Bool.and_self]
+    · have hzt : zlpTail (min l dd.length) l mps = [] := by simp only [zlpTail, if_neg hz]
+      simp only [hzt, List.length_nil, Nat.zero_add, readScript, legalFromM]
+  | succ m ih =>
+    intro k d hk hr hg
+    have hlt : k * mps < min l dd.length := by
+      rcases hm with rfl | rfl | rfl | rfl <;> omega
+    have hmod : (k * c.maxPacket) % 2048 = k * c.maxPacket := by rw [hmps]; omega
+    have hp : descriptorPacket c v l ((k * c.maxPacket) % 2048) = some (Desc.packetAt dd l mps k) := by
+      rw [hmod, descriptorPacket_at c v l k dd hmp hl hlk hpb (by rw [hmps]; omega), if_pos (by rw [hmps]; exact hlt), hmps]
+    obtain ⟨q1, q2, q3⟩ := read_pair_legal c hx v l a d k _ ha hr (hg (by omega)) hp
+    obtain ⟨_, _, r3⟩ := read_pair c hx v l a d k _ hr hp
+    have hn : m + 1 + (zlpTail (min l dd.length) l mps).length = (m + (zlpTail (min l dd.length) l mps).length) + 1 := by
+      omega
+    rw [hn]
+    simp only [readScript, legalFromM, q1, q2, Bool.true_and]
+    refine ih (k + 1) _ (by omega) r3 ?_
+    intro hne
+    apply q3
+    have hfull : (k + 1) * mps ≤ min l dd.length := by
+      by_cases hz : min l dd.length ≠ 0 ∧ min l dd.length % mps = 0 ∧ min l dd.length < l
+      · rcases hm with rfl | rfl | rfl | rfl <;> omega
+      · have hzt : zlpTail (min l dd.length) l mps = [] := by simp only [zlpTail, if_neg hz]
+        rw [hzt] at hne
+        simp only [List.length_nil, Nat.add_zero] at hne
+        rcases hm with rfl | rfl | rfl | rfl <;> omega
+    rw [hmps, packetAt_full dd l mps k hfull]
+    exact Nat.le_refl _
+
+/-- **The host's read of an existing descriptor is a legal host behaviour after every history**: SETUP transaction,
+then one IN + ACK pair per packet of `Desc.dataStage` (the host stops after the short / zero-length packet or when
+`wLength` bytes have arrived). -/
+theorem script_legal (c : DevConfig) (hx : c.extra = [])
+    (hm : c.maxPacket = 8 ∨ c.maxPacket = 16 ∨ c.maxPacket = 32 ∨ c.maxPacket = 64) (v l : Nat) (dd : List Nat)
+    (hv : v < 65536) (hl : l < 65536) (hl0 : l ≠ 0)
+    (hlk : lookupDescriptor c.descriptors (v / 256 % 256) (v % 256) = some dd) (hpb : dd.length < 2 ^ c.posBits)
+    (h11 : min l dd.length < 2048) (d : DevState) (ha : d.address < 128) :
+    legalFromM c d (getDescriptorScript d.address v l (Desc.dataStage dd l c.maxPacket).length) = true := by
+  obtain ⟨_, r2, r3⟩ := setup_reading c d v l hv hl hl0
+  rw [getDescriptorScript, c09_legalFromM_append, setupScript_legal c d v l ha hv hl, Bool.true_and]
+  have h := read_legal_from c hx c.maxPacket rfl hm v l d.address dd ha hl hlk hpb h11
+    ((min l dd.length + c.maxPacket - 1) / c.maxPacket) 0 _ (by omega) r2 (fun _ => r3)
+  have hlen : (Desc.dataStage dd l c.maxPacket).length =
+      (min l dd.length + c.maxPacket - 1) / c.maxPacket + (zlpTail (min l dd.length) l c.maxPacket).length := by
+    rw [dataStage_split]
+    simp only [List.length_append, List.length_map, List.length_range']
+  rw [hlen]
+  exact h
+
+/-- The SETUP transaction + first IN token is legal after every history. -/
+theorem firstInScript_legal (c : DevConfig) (v l : Nat) (hv : v < 65536) (hl : l < 65536) (hl0 : l ≠ 0)
+    (d : DevState) (ha : d.address < 128) : legalFromM c d (firstInScript d.address v l) = true := by
+  obtain ⟨_, _, r3⟩ := setup_reading c d v l hv hl hl0
+  rw [firstInScript, c09_legalFromM_append, setupScript_legal c d v l ha hv hl, Bool.true_and]
+  simp only [legalFromM, Bool.and_true]
+  simp [legalEventM, Resp.isNone, isTokenPid, PID_SETUP, PID_OUT, PID_IN, PID_PING, ha, r3]
 
 end LunaVerif.CtrlCyc
